@@ -43,6 +43,34 @@ def quara_basis_matrices(c_sys):
     return out
 
 
+def _rep(a, tag):
+    """the same values in another, equally valid, in-memory representation, chosen as a pure function of the values:
+    canonical / strided (non-contiguous) view / Fortran-ordered (2-d) / read-only.  Every check that builds its objects
+    through make() therefore also exercises the library on non-canonical arrays (VERIF_REPS=0 switches this off)."""
+    import hashlib
+    import os
+
+    if os.environ.get("VERIF_REPS", "1") == "0" or a.size == 0:
+        return a
+    h = hashlib.sha256(a.tobytes() + tag.encode()).digest()[0] % 6
+    if h <= 2:
+        return a
+    if h == 3:  # strided view into a larger buffer
+        if a.ndim == 1:
+            big = np.zeros(2 * a.size, dtype=a.dtype)
+            v = big[::2]
+        else:
+            big = np.zeros((a.shape[0], 2 * a.shape[1]), dtype=a.dtype)
+            v = big[:, ::2]
+        v[...] = a
+        return v
+    if h == 4:
+        return np.asfortranarray(a) if a.ndim == 2 else a
+    b = a.copy()
+    b.flags.writeable = False
+    return b
+
+
 def make(c_sys, typ, stacked, m=None, **kw):
     """quara object from a real stacked vector (no physicality requirement by default)."""
     from quara.objects.gate import Gate
@@ -55,18 +83,18 @@ def make(c_sys, typ, stacked, m=None, **kw):
     stacked = np.ascontiguousarray(np.asarray(stacked, dtype=np.float64))
     n = c_sys.dim ** 2
     if typ == "state":
-        return State(c_sys, stacked.copy(), **kw)
+        return State(c_sys, _rep(stacked.copy(), "state"), **kw)
     if typ == "povm":
         m = stacked.size // n if m is None else m
-        return Povm(c_sys, [stacked[i * n : (i + 1) * n].copy() for i in range(m)], **kw)
+        return Povm(c_sys, [_rep(stacked[i * n : (i + 1) * n].copy(), "povm") for i in range(m)], **kw)
     if typ == "gate":
-        return Gate(c_sys, stacked.reshape(n, n).copy(), **kw)
+        return Gate(c_sys, _rep(stacked.reshape(n, n).copy(), "gate"), **kw)
     mshape = _mshape
     if typ == "mprocess":
         m = stacked.size // (n * n) if m is None else m
         if mshape is not None:
             kw["shape"] = tuple(mshape)  # explicit (multi-axis) outcome layout
-        return MProcess(c_sys, [stacked[i * n * n : (i + 1) * n * n].reshape(n, n).copy() for i in range(m)], **kw)
+        return MProcess(c_sys, [_rep(stacked[i * n * n : (i + 1) * n * n].reshape(n, n).copy(), "mprocess") for i in range(m)], **kw)
     raise ValueError(typ)
 
 
